@@ -1156,7 +1156,7 @@ Qed.
 (* ------------------------------------------------------------------ std intensity: window sums
    by cumulative sums (1-D pass of compute_mean_raster) are the direct window sums *)
 
-Fixpoint qsum (l : list Q) : Q := match l with [] => 0%Q | x :: r => (x + qsum r)%Q end.
+(* [qsum] is defined in Spec/Confidence.v *)
 
 Lemma cumsum_nth l : forall acc i, (i <= length l)%nat ->
   exists y, nth_error (acc :: cumsum_from acc l) i = Some y /\ (y == acc + qsum (firstn i l))%Q.
